@@ -75,7 +75,12 @@ def gen(rng, tier):
         for start_up, steps in scheds:
             cases.append({"steps": steps, "start_up": start_up, "spool_sleep_us": rng.choice([10, 10, 500]), "keepsafe_ms": rng.choice([0, 300]), "connbuf": rng.choice([10, 100, 1000]),
                           "iobuf": rng.choice([4096, 65536]), "spoolbuf": rng.choice([100, 10000]), "pace_us": rng.choice([50, 100, 100, 0]),
-                          "file_bytes": rng.choice([20000, 200000, 1000000])})
+                          # 44 = one spooled record of the default 40-byte line: segment sizes that records land on exactly
+                          "file_bytes": rng.choice([20000, 200000, 1000000, 44 * 50, 44 * 333])})
+        # spool segments whose size is a whole number of records: a record ends exactly at the size limit in every segment
+        cases.append({"steps": [S(600), {"op": "down"}, {"op": "wait_offline"}, S(1500), {"op": "up"}, {"op": "wait_online"}, S(300)],
+                      "start_up": True, "spool_sleep_us": 10, "keepsafe_ms": 0, "connbuf": 1000, "iobuf": 4096, "spoolbuf": 10000, "pace_us": 100,
+                      "file_bytes": 44 * rng.choice([10, 25, 100])})
     return cases
 
 
